@@ -108,7 +108,10 @@ func (a *Accessory) AddService(s *service.Service) {
 }
 
 // UpdateIDs updates the service and characteirstic ids.
+// The ids are numbered from 1 in the order of the services and their characteristics. They do not
+// depend on how often the method is called, e.g. when the accessory is added to a container again.
 func (a *Accessory) UpdateIDs() {
+	a.idCount = 1
 	for _, s := range a.Services {
 		s.ID = a.idCount
 		a.idCount++
